@@ -90,6 +90,9 @@ func c20Build(cs *c20Case) (coqKind string) {
 		st := model.DiamondInitialized
 		if cs.Final {
 			st = model.DiamondDone
+			if cs.Index%2 == 1 { // the other terminal state
+				st = model.DiamondCanceled
+			}
 		}
 		cs.Built = model.GetArchivePathToDiamond(a[0], a[1], st)
 		return fmt.Sprintf("BDiamond %s %s %v", S(a[0]), S(a[1]), cs.Final)
@@ -479,7 +482,7 @@ func init() {
 			runBuild("label", []string{repo, l}, 0, false)
 			runBuild("bundle", []string{repo, b}, 0, false)
 			runBuild("bundlefl", []string{repo, b}, idx, false)
-			runBuild("diamond", []string{repo, d}, 0, r.Bool())
+			runBuild("diamond", []string{repo, d}, uint64(r.Intn(2)), r.Bool())
 			runBuild("split", []string{repo, d, s}, 0, r.Bool())
 			runBuild("splitfl", []string{repo, d, s, g}, idx, false)
 			if i%10 == 0 {
